@@ -252,6 +252,17 @@ def whitelist(repo: Repo):
             for node2 in mi.tree.body:
                 if isinstance(node2, ast.Assign) and any(isinstance(t, ast.Name) and t.id == comp.id for t in node2.targets):
                     comp = node2.value
+        if isinstance(comp, ast.Attribute) and isinstance(comp.value, ast.Name) and comp.value.id in ("self", "OPF", "cls"):
+            # the whitelist as a class-level constant (`VALID = (...)` / `VALID = tuple(d.DISTANCES)`), assigned once
+            hits = [x for x in ci.node.body if isinstance(x, ast.Assign) and len(x.targets) == 1
+                    and isinstance(x.targets[0], ast.Name) and x.targets[0].id == comp.attr]
+            stores = [x for m2 in repo.modules.values() for x in ast.walk(m2.tree) if isinstance(x, ast.Attribute)
+                      and x.attr == comp.attr and isinstance(x.ctx, (ast.Store, ast.Del))]
+            if len(hits) == 1 and not stores:
+                comp = hits[0].value
+                if isinstance(comp, ast.Call) and isinstance(comp.func, ast.Name) and comp.func.id in ("tuple", "list", "sorted", "frozenset", "set") \
+                        and len(comp.args) == 1 and not comp.keywords:
+                    comp = comp.args[0]  # the names of the registry
         if isinstance(n, ast.Compare) and len(n.ops) == 1 and isinstance(n.ops[0], ast.NotIn) \
                 and isinstance(comp, (ast.List, ast.Tuple, ast.Set)):
             vals = []
